@@ -69,11 +69,31 @@ def run(rep: Report, prog: Program, tier: str) -> None:
     uses["history lookup index"] = len(look) == 1 and mod_hist(look[0])
     same_const = prog.const(prog.module("rtcrtpreceiver"), "RTP_HISTORY_SIZE") == prog.const(prog.module("rtcrtpsender"), "RTP_HISTORY_SIZE") == prog.const(prog.module("rtp"), "RTP_HISTORY_SIZE")
     uses["one constant (128)"] = same_const and prog.const(prog.module("rtp"), "RTP_HISTORY_SIZE") == 128
+    # the video jitter buffer has to keep a hole open for as long as the NACK window / sender history can still fill it
+    rinit = prog.func(R + ".__init__")
+    caps = []
+    for n_ in walk_no_nested(rinit.node):
+        if isinstance(n_, ast.Call) and unparse(n_.func) == "JitterBuffer":
+            kw_ = {k.arg: k.value for k in n_.keywords}
+            if "is_video" in kw_ and getattr(kw_["is_video"], "value", None) is True:
+                cexp = kw_.get("capacity") or (n_.args[0] if n_.args else None)
+                try:
+                    from engine.peval import Evaluator as _EvC
+                    caps.append((n_, _EvC(prog, rinit.module, None, {}).ev(cexp)))
+                except Exception:
+                    caps.append((n_, None))
+    if not caps:
+        raise AnalysisError("RTCRtpReceiver.__init__: construction of the video JitterBuffer not found")
+    hist_n = prog.const(prog.module("rtp"), "RTP_HISTORY_SIZE")
+    uses["video jitter buffer capacity >= NACK window"] = all(isinstance(c, int) and c >= hist_n for _, c in caps)
     for what, ok in uses.items():
         if ok:
             rep.ok("C11-NACK", what, sample="RTP_HISTORY_SIZE")
         else:
-            rep.fail(mk_finding(prog, PROP, "C11-NACK", trunc if "truncate" in what else rt, None, f"{what}: the NACK window and the sender history no longer use the same bound", construct=what))
+            rep.fail(mk_finding(prog, PROP, "C11-NACK", trunc if "truncate" in what else rt, None, (f"{what}: the NACK window and the sender history no longer use the same bound" if "jitter" not in what else
+                                                                                                    f"the video jitter buffer holds {[c for _, c in caps]} packets but a retransmission may answer a NACK up to {hist_n} packets "
+                                                                                                    "after the loss: the buffer overflows first, discards the frame with the hole (and the complete one before it) and the "
+                                                                                                    "retransmission lands behind the origin"), construct=what))
     # _retransmit evaluated: the slot a sequence number maps to may be empty or hold a packet that is 128 (a multiple of the history size) away
     from types import SimpleNamespace as _NSr
 
@@ -395,11 +415,13 @@ def loop_rule(rep: Report, prog: Program) -> None:
             setattr(s, k, v)
         return s
     import itertools
-    cases = list(itertools.product((True, False), (100, 65530), ((3,), (3, 4), (2, 7)), (5000, 65535)))
-    for rtx, seq0, lost, rtx_seq0 in cases:
+    cases = [c + (False,) for c in itertools.product((True, False), (100, 65530), ((3,), (3, 4), (2, 7)), (5000, 65535))]
+    # reordering instead of loss: the overtaken packet is asked for, and both the late original and the retransmission arrive
+    cases += [(True, 100, (4,), 5000, True), (False, 65530, (4,), 5000, True), (True, 65530, (2, 6), 65535, True)]
+    for rtx, seq0, lost, rtx_seq0, late in cases:
         if not rtx and rtx_seq0 != 5000:
             continue
-        label = f"{'RTX' if rtx else 'no RTX'}, first sequence number {seq0}, lost {list(lost)}" + (f", RTX sequence numbers from {rtx_seq0}" if rtx else "")
+        label = f"{'RTX' if rtx else 'no RTX'}, first sequence number {seq0}, {'overtaken by two packets' if late else 'lost'} {list(lost)}" + (f", RTX sequence numbers from {rtx_seq0}" if rtx else "")
         packets = [mk_packet((seq0 + i) % 65536, 3000 * i, bytes([i])) for i in range(10)]
         world.update(added=[], feedback=[], wire=[])
         r, s = receiver(rtx), sender(rtx, rtx_seq0, packets)
@@ -407,6 +429,9 @@ def loop_rule(rep: Report, prog: Program) -> None:
         rtx_seqs: list = []
         try:
             for i, p in enumerate(packets):
+                if late and (i - 3) in lost:
+                    q = packets[i - 3]
+                    oh.run_method(rh, r, [mk_packet(q.sequence_number, q.timestamp, q.payload), 1000 + i], {})   # the late original
                 if i in lost:
                     continue
                 # a fresh copy travels: the receiver annotates what it gets
@@ -426,6 +451,8 @@ def loop_rule(rep: Report, prog: Program) -> None:
                             rtx_seqs.append(w.sequence_number)
                         oh.run_method(rh, r, [w, 2000], {})
             got = sorted((p.sequence_number, p.timestamp, getattr(p, "_data", None)) for p in world["added"])
+            if late:
+                got = sorted(set(got))      # a late original and its retransmission both arrive: the jitter buffer copes with the duplicate
             want = sorted((p.sequence_number, p.timestamp, b"D" + p.payload) for p in packets)
             lost_seqs = {packets[i].sequence_number for i in lost}
             problem = None
